@@ -38,7 +38,10 @@ rc::Gen<std::vector<Op>> genFileOps(const FileCfg &c) {
                          : op("fids", {g::just<long long>(0), g::just<long long>(1), g::just<long long>(3)});
     auto grp = op("fgroup", {g::weightedOneOf<long long>({{3, sized(2, 9)}, {1, uni(0, 126)}}), sized(0, 30), fdescLen(), uni(0, 1)});
     auto nd = g::weightedOneOf<long long>({{3, g::just<long long>(0)}, {3, g::just<long long>(1)}, {3, g::just<long long>(2)}, {2, g::just<long long>(3)}, {1, uni(4, 7)}});
-    auto par = op("fparam", {sized(0, 8), sized(0, 20), uni(0, 3), nd, fdim(), fdim(), fdim(), fdim(), fdim(), fdim(), fdim(), seedv(), fdescLen(), uni(0, 1)});
+    rc::Gen<Op> par = op("fparam", {sized(0, 8), sized(0, 20), uni(0, 3), nd, fdim(), fdim(), fdim(), fdim(), fdim(), fdim(), fdim(), seedv(), fdescLen(), uni(0, 1)});
+    // occasionally a large matrix whose record is longer than 32767 bytes (legal: the next-offset is an unsigned 16-bit word)
+    auto bigpar = op("fparam", {sized(0, 8), sized(0, 20), uni(1, 3), g::just<long long>(2), pick({128, 200, 255}), pick({70, 100, 120, 127}), fdim(), fdim(), fdim(), fdim(), fdim(), seedv(), fdescLen(), uni(0, 1)});
+    par = g::weightedOneOf<Op>({{14, par}, {1, bigpar}});
     auto order = op("forder", {seedv(), c.layouts ? g::weightedOneOf<long long>({{4, g::just<long long>(0)}, {3, g::just<long long>(1)}, {1, g::just<long long>(2)}}) : g::just<long long>(0)});
     auto one = [](rc::Gen<Op> o) { return g::map(o, [](Op x) { return std::vector<Op>{x}; }); };
     return concat({one(layout), one(shape), one(hdr), one(ids), ops(grp, c.maxGroups), ops(par, c.maxParams), one(order)});
